@@ -15,7 +15,7 @@ from ..gen import steps as ST
 from ..gen import tables as T
 from ..seams import faults as F
 
-KINDS = ['concatenate', 'duplicate', 'delete_resource', 'iterable', 'update_resource', 'sources', 'load_tuple', 'add_field', 'delete_fields']
+KINDS = ['concatenate', 'duplicate', 'delete_resource', 'iterable', 'update_resource', 'sources', 'load_tuple', 'add_field', 'delete_fields', 'nested_edit']
 
 
 def model(tables, steps):
@@ -77,6 +77,15 @@ def model(tables, steps):
                         row[sp['name']] = sp.get('default')
                     if x[2] is not None:
                         x[2] = x[2] + [sp['name']]
+        elif s == 'nested_edit':
+            # a user row function editing array / object cells in place: every row of every resource, once
+            for x in st:
+                for row in x[1]:
+                    for v in row.values():
+                        if isinstance(v, list):
+                            v.append(sp['tag'])
+                        elif isinstance(v, dict):
+                            v[sp['tag']] = 1
         elif s == 'delete_fields':
             sel = select(sp['resources'], names)
             pats = [re.compile('^%s$' % (f if sp.get('regex', True) else re.escape(f))) for f in sp['fields']]
@@ -103,7 +112,7 @@ def _expand(payload, sub):
     rng = random.Random(payload['gseed'])
     sizes = [0, 1, 2, 3, 5, 12] + ([1001, 1200] if rng.random() < 0.15 else [])
     types = ('string', 'integer', 'boolean', 'number', 'date') + (('time',) if rng.random() < 0.3 else ())
-    tables = PL.gen_tables(rng, ntab=rng.choice([1, 2, 3, 3, 4, 5]), sizes=sizes, big_p=0.05, types=types)
+    tables = PL.gen_tables(rng, ntab=rng.choice([1, 2, 3, 3, 4, 5]), sizes=sizes, big_p=0.05, types=types, nested_p=0.2)
     stats = {}
     pre = None
     if len(tables) >= 2 and rng.random() < 0.35:
@@ -111,6 +120,20 @@ def _expand(payload, sub):
         i = rng.randrange(1, len(tables))
         pre = {'tables': tables, 'steps': [{'step': 'update_resource', 'resources': i, 'props': {'name': 'res_1x', 'path': 'res_1x.csv'}}]}
     sc = PL.gen_pipeline(rng, tables, payload['nsteps'], exclude=[k for k in ST.GENS if k not in KINDS], stats=stats, sc=pre)
+    # motif: duplicate a resource that has array / object cells, then edit nested values in place further down the chain
+    nested = [t['name'] for t in tables if any(f['type'] in ('array', 'object') for f in t['fields']) and t['rows']]
+    if nested and rng.random() < 0.4:
+        try:
+            names = [r['name'] for r in PL.describe(sc, {'calls': {}})['resources']]
+            src = [n for n in nested if names.count(n) == 1]
+            if src:
+                extra = [{'step': 'duplicate', 'source': rng.choice(src), 'target': 'dupn', 'to_end': rng.random() < 0.5, 'batch_size': rng.choice([2, 50, 1000])},
+                         {'step': 'nested_edit', 'tag': 'seenn'}]
+                trial = dict(sc, steps=sc['steps'] + extra)
+                PL.describe(trial, {'calls': {}})
+                sc['steps'] = trial['steps']
+        except Exception:  # noqa
+            pass
     # concatenate with a real mapping now and then: rename one non-id field of the run onto a new target name
     for sp in sc['steps']:
         if sp['step'] == 'concatenate' and rng.random() < 0.4:
@@ -170,7 +193,7 @@ class C16(Prop):
     ASSUMPTIONS = ['the placement model (dfsim/props/c16.py:model) is the documented semantics: first-selected position for concatenate, right-after / end for duplicate, append for new sources',
                    'sqlite below KVFile is real and fault-free here']
     REAL_VS_STUB = {'real': ['dataflows concatenate / duplicate / delete_resource / iterable_loader / update_resource', 'kvfile + sqlite'], 'stub': ['KVFile twin only sets the cache-size knob and counts operations']}
-    PROBES = ['duplicate-spilled-to-disk', 'concatenate-with-rename', 'delete-after-duplicate', 'empty-resource', 'big-resource', 'duplicate-to-end', 'iterable-appended', 'concat-then-delete', 'concatenate-without-id-field', 'sources-appended', 'load-tuple-appended', 'schema-edit-on-one-twin-after-duplicate', 'concatenate-target-is-also-a-source-column', 'prefix-related-resource-names', 'time-cells-in-iterable']
+    PROBES = ['duplicate-spilled-to-disk', 'concatenate-with-rename', 'delete-after-duplicate', 'empty-resource', 'big-resource', 'duplicate-to-end', 'iterable-appended', 'concat-then-delete', 'concatenate-without-id-field', 'sources-appended', 'load-tuple-appended', 'schema-edit-on-one-twin-after-duplicate', 'concatenate-target-is-also-a-source-column', 'prefix-related-resource-names', 'time-cells-in-iterable', 'nested-cells-edited-in-place-after-duplicate']
     TIERS = {'quick': dict(runs=800, wall=100, run_wall=300),
              'thorough': dict(runs=25000, wall=1700, run_wall=600)}
     SHRINK_FROZEN = ('fields_', 'gen_stats')
@@ -226,6 +249,8 @@ class C16(Prop):
                 ctx.probe('concatenate-without-id-field')
         if 'duplicate' in kinds and any(k in ('add_field', 'delete_fields') for k in kinds[kinds.index('duplicate'):]):
             ctx.probe('schema-edit-on-one-twin-after-duplicate')
+        if 'duplicate' in kinds and 'nested_edit' in kinds[kinds.index('duplicate'):]:
+            ctx.probe('nested-cells-edited-in-place-after-duplicate')
         if 'duplicate' in kinds and 'delete_resource' in kinds[kinds.index('duplicate'):]:
             ctx.probe('delete-after-duplicate')
         if 'concatenate' in kinds and 'delete_resource' in kinds[kinds.index('concatenate'):]:
